@@ -56,7 +56,7 @@ class Recorder:
         return "0" * 64
 
 
-def bare_parser(ctx=0):
+def bare_parser(ctx=0, reuse_name=None):
     from engine.standins import NullLogger
     from engine import realinit
     p = realinit.parser(P, validate_alignment=bool(ctx % 2), auto_pad=True, import_coredefs=bool((ctx // 2) % 2))
@@ -66,6 +66,19 @@ def bare_parser(ctx=0):
     if ctx >= 1:   # unrelated definitions already registered
         p.constants["ZED"] = P.ConstantExpr("ZED", "5", "5", 5, pathlib.Path("z.yaml"))
         p.handle_struct("Unrelated%d" % ctx, {"fields": {"q": "int8"}})
+    if ctx >= 4 and reuse_name is not None:
+        # the definition named by `fields: <name>` was read from an imported file earlier: parse_text has merged that file's
+        # sections into yaml_dict and the handlers have registered it (ctx 4: as a message, ctx 5: as a struct)
+        body = {"fields": {"q": "int8", "r": "double"}}
+        try:
+            if ctx == 4:
+                p.handle_message_def(reuse_name, dict(body, id=9000))
+            else:
+                p.handle_struct(reuse_name, dict(body))
+        except Exception:
+            pass        # marker names are not identifiers; the merged dictionary below is what a later lookup would see
+        p.yaml_dict["message_defs" if ctx == 4 else "struct_defs"][reuse_name] = dict(body, id=9000) if ctx == 4 else dict(body)
+    p.current_file = pathlib.Path(["/d/a.yaml", "/other/place/b.yaml", "/d/sub/c.yaml"][ctx % 3])
     return p
 
 
@@ -75,13 +88,13 @@ def hashed_text(shape, k, values=None, ctx=0):
     old = P.sha256
     P.sha256 = rec
     try:
-        p = bare_parser(ctx)
         if values is None:
             name, mid = M_NAME, MarkInt(7)
             fields = {m_fname(i): m_ftype(i) for i in range(k)}
             reuse = M_REUSE
         else:
             name, mid, fields, reuse = values
+        p = bare_parser(ctx, reuse)
         n0 = len(rec.texts)
         try:
             if shape == "signal":
@@ -152,6 +165,56 @@ def instantiate(tpl, name, mid, fields, reuse):
 
 
 SHAPES = ["signal", "msg", "msg_reuse", "struct", "struct_reuse"]
+NCTX = 6    # parser contexts: file location / options / unrelated registry contents / the reused definition read from an imported file
+
+
+class ContextDependence(Exception):
+    """the text a handler hashes is not the same template under all parser contexts: the property's first clause is broken"""
+
+    def __init__(self, shape, k):
+        Exception.__init__(self, "hashed text of shape %s depends on the parser context (file location / registry contents / options / where a reused definition was read from)" % shape)
+        self.shape, self.k = shape, k
+
+
+def replay_context(shape, k):
+    """the same definition B compiled by the real parser (real ruamel.yaml, real sha256) in two layouts - everything in one
+    file / the definition it refers to read from an imported file, with an unrelated definition around - must hash alike.
+    Returns True iff the two hashes DIFFER (the dependence is real)."""
+    import os
+    import shutil
+    import tempfile
+    d = tempfile.mkdtemp(prefix="verif_c13ctx_")
+    try:
+        a_msg = "  A:\n    id: 1000\n    fields:\n      x: int32\n      y: double\n"
+        a_struct = "  AS:\n    fields:\n      x: int32\n      y: double\n"
+        if shape == "signal":
+            b, sec = "  B:\n    id: 1001\n    fields: null\n", "message_defs"
+        elif shape == "msg":
+            b, sec = "  B:\n    id: 1001\n    fields:\n" + "".join("      f%d: int32\n" % i for i in range(max(k, 1))), "message_defs"
+        elif shape == "msg_reuse":
+            b, sec = "  B:\n    id: 1001\n    fields: A\n", "message_defs"
+        elif shape == "struct":
+            b, sec = "  B:\n    fields:\n" + "".join("      f%d: int32\n" % i for i in range(max(k, 1))), "struct_defs"
+        else:
+            b, sec = "  B:\n    fields: AS\n", "struct_defs"
+        one = "struct_defs:\n" + a_struct + (b if sec == "struct_defs" else "") + "message_defs:\n" + a_msg + (b if sec == "message_defs" else "")
+        base = "struct_defs:\n" + a_struct + "message_defs:\n" + a_msg
+        main = "imports:\n  - inc/base.yaml\n" + sec + ":\n" + b
+        os.makedirs(os.path.join(d, "two", "inc"))
+        os.makedirs(os.path.join(d, "one"))
+        for path, text in (("one/main.yaml", one), ("two/inc/base.yaml", base), ("two/main.yaml", main)):
+            with open(os.path.join(d, path), "w") as f:
+                f.write(text)
+        hashes = []
+        for lay in ("one", "two"):
+            p = P.Parser(import_coredefs=False)
+            p.logger.disabled = True
+            p.parse(pathlib.Path(d) / lay / "main.yaml")
+            tab = p.message_defs if sec == "message_defs" else p.struct_defs
+            hashes.append(tab["B"].hash)
+        return hashes[0] != hashes[1]
+    finally:
+        shutil.rmtree(d, ignore_errors=True)
 
 
 def validate_templates(seed, n=150):
@@ -160,9 +223,9 @@ def validate_templates(seed, n=150):
     checked = 0
     for shape in SHAPES:
         for k in ((1, 2, 3) if shape in ("msg", "struct") else (0,)):
-            tpls = [template(shape, k, ctx) for ctx in range(4)]
+            tpls = [template(shape, k, ctx) for ctx in range(NCTX)]
             if any(t != tpls[0] for t in tpls[1:]):
-                raise RuntimeError("hashed text of shape %s depends on the parser context (file location / registry / options)" % shape)
+                raise ContextDependence(shape, k)
             slots = sorted(p for p in tpls[0] if p[0] != "lit")
             want = []
             if shape in ("signal", "msg", "msg_reuse"):
@@ -186,7 +249,7 @@ def validate_templates(seed, n=150):
                 reuse = rnd.choice(["Base", "OTHER_DEF", "k"])
                 if shape == "struct_reuse":
                     continue
-                real = hashed_text(shape, k, (name, mid, fields, reuse), rnd.randrange(4))
+                real = hashed_text(shape, k, (name, mid, fields, reuse), rnd.randrange(NCTX))
                 if real != instantiate(tpls[0], name, mid, fields, reuse):
                     raise RuntimeError("template of %s/%d does not reproduce the handler's text for %r" % (shape, k, (name, mid, fields)))
                 checked += 1
@@ -285,7 +348,7 @@ def script_main():
     try:
         if shard.get("what") == "templates":
             n = validate_templates(int(shard.get("seed", 0)))
-            print("RESULT " + json.dumps({"state": "CONFIRMED", "message": "templates extracted from the real handlers reproduce %d concrete renderings; slots are exactly name/id/fields; identical under 4 parser contexts" % n,
+            print("RESULT " + json.dumps({"state": "CONFIRMED", "message": "templates extracted from the real handlers reproduce %d concrete renderings; slots are exactly name/id/fields; identical under %d parser contexts" % (n, NCTX),
                                           "paths": n, "solver_calls": 0, "solver_s": 0.0, "wall_s": time.time() - t0}))
             return
         if shard.get("what") == "pool":
@@ -326,6 +389,11 @@ def script_main():
         else:
             res.update(state="CANNOT_CONFIRM", message="z3 answered %s" % r["result"])
         print("RESULT " + json.dumps(res))
+    except ContextDependence as e:
+        real = replay_context(e.shape, e.k)
+        print("RESULT " + json.dumps({"state": "POST_FAIL", "replayed_real": bool(real), "call": json.dumps({"shape": e.shape, "k": e.k}),
+                                      "message": "%s%s" % (e, "; two real compilations (one file / referred definition imported) give different hashes" if real else ""),
+                                      "paths": 1, "solver_calls": 0, "solver_s": 0.0, "wall_s": time.time() - t0}))
     except Exception as e:
         import traceback
         print("RESULT " + json.dumps({"state": "HARNESS_ERROR", "message": "%s: %s" % (type(e).__name__, e), "traceback": traceback.format_exc()[-1500:]}))
